@@ -383,6 +383,8 @@ func stdlibHandler(f *ssa.Function) stdHandler {
 			vc.assume(fmt.Sprintf("(=> (not (= (atag %s) 0)) (or (= %s 0) (= %s %s) (= %s %s)))", e.S, r, r, hi, r, lo))
 			return &Val{T: x.Type(), Tup: []*Val{{T: rt, S: r}, e}}
 		}
+	case "json.Unmarshal":
+		return jsonUnmarshal
 	case "sort.Strings":
 		return func(vc *VC, fr *Frame, st *State, x *ssa.Call, args []*Val) *Val {
 			// in place; multiset preserved; sorted
@@ -446,4 +448,147 @@ func (vc *VC) opaqueResult(st *State, name string, x *ssa.Call, args []*Val) *Va
 		return v
 	}
 	return mk(rt, 0)
+}
+
+// jsonUnmarshal is the assumed contract of encoding/json.Unmarshal(data, &target).
+//
+// string / time.Time / []byte targets get the codec view (null is a no-op for
+// strings and times and sets a slice to nil; otherwise success iff the text is a
+// JSON string / RFC 3339 time / base64 string, with the decoded value given by an
+// uninterpreted function of the text). Every other target gets the
+// over-approximation: an error, or an arbitrary well-formed value of the
+// target's Go type made of freshly allocated objects.
+func jsonUnmarshal(vc *VC, fr *Frame, st *State, x *ssa.Call, args []*Val) *Val {
+	u := vc.u
+	errT := types.Universe.Lookup("error").Type()
+	var ptrVal *Val
+	var tt types.Type
+	switch a := x.Call.Args[1].(type) {
+	case *ssa.MakeInterface:
+		tt = deref(a.X.Type())
+		ptrVal = vc.val(fr, st, a.X)
+	}
+	if tt == nil || ptrVal == nil {
+		vc.unsupported(st, "json.Unmarshal-target", vc.pos(x.Pos()))
+		return vc.freshError(st, false)
+	}
+	p := vc.asPtr(ptrVal)
+	if p.Cell == nil && len(p.Path) == 0 {
+		// a nil target makes Unmarshal return an error, not panic
+	}
+	_, hb := vc.heap(st, byteT)
+	u.declareUninterp("bytes2str", []string{"(Array Int Int)", "Slice"}, "String")
+	d := vc.define("jtext", "String", "(bytes2str "+hb+" "+args[0].S+")")
+	vc.assume("(= (str.len " + d + ") (slen " + args[0].S + "))")
+	u.declareUninterp("jsonNull", []string{"String"}, "Bool")
+	vc.jsonAxioms()
+	e := vc.freshError(st, false)
+	okc := "(= (atag " + e.S + ") 0)"
+	old := vc.load(fr, st, p, x.Pos())
+	switch {
+	case isStringT(tt):
+		u.declareUninterp("isJSONString", []string{"String"}, "Bool")
+		u.declareUninterp("jsonStringVal", []string{"String"}, "String")
+		vc.assume(fmt.Sprintf("(= %s (or (jsonNull %s) (isJSONString %s)))", okc, d, d))
+		nv := vc.define("jstr", "String", ite("(and "+okc+" (isJSONString "+d+"))", "(jsonStringVal "+d+")", old.S))
+		vc.store(fr, st, p, &Val{T: tt, S: nv}, x.Pos())
+	case isTime(tt):
+		u.declareUninterp("isJSONTime", []string{"String"}, "Bool")
+		u.declareUninterp("jsonTimeVal", []string{"String"}, "Time")
+		vc.assume(fmt.Sprintf("(= %s (or (jsonNull %s) (isJSONTime %s)))", okc, d, d))
+		nv := vc.define("jtime", "Time", ite("(and "+okc+" (isJSONTime "+d+"))", "(jsonTimeVal "+d+")", old.S))
+		vc.store(fr, st, p, &Val{T: tt, S: nv}, x.Pos())
+	case isByteSlice(tt):
+		u.declareUninterp("isJSONBase64", []string{"String"}, "Bool")
+		u.declareUninterp("jsonBytesVal", []string{"String"}, "String")
+		vc.assume(fmt.Sprintf("(= %s (or (jsonNull %s) (isJSONBase64 %s)))", okc, d, d))
+		// decoded bytes: a fresh slice whose content is the decoded text
+		n := vc.fresh("blen", "Int")
+		vc.assume("(>= " + n + " 0)")
+		fresh := vc.makeSlice(st, tt, byteT, n, n)
+		_, hb2 := vc.heap(st, byteT)
+		vc.assume(implies("(and "+okc+" (isJSONBase64 "+d+"))", "(= (bytes2str "+hb2+" "+fresh.S+") (jsonBytesVal "+d+"))"))
+		arb := vc.havocVal(tt, "jbytes")
+		vc.assumeRefsBelow(st, arb.S, tt)
+		nv := vc.define("jb", "Slice", ite(okc, ite("(jsonNull "+d+")", "nil_slice", fresh.S), arb.S))
+		vc.store(fr, st, p, &Val{T: tt, S: nv}, x.Pos())
+	default:
+		// over-approximation: on success the target holds an arbitrary well-formed
+		// value; on failure it may have been partially filled (arbitrary as well).
+		// Everything reachable from the new value is freshly allocated or nil, which
+		// the frame of the caller observes through the allocation counter.
+		before := st.alloc
+		ms := newModSet()
+		seen := map[string]bool{}
+		vc.reachableKeys(tt, ms, seen)
+		ms.all = false
+		ms.alloc = true
+		// the decoded value lives in new memory: existing objects keep their value
+		vc.havocFresh(fr, st, ms, before)
+		nv := vc.havocVal(tt, "jval")
+		vc.assumeRefsBelow(st, nv.S, tt)
+		vc.store(fr, st, p, nv, x.Pos())
+		vc.jsonShapeFacts(st, nv, tt, okc, d)
+	}
+	_ = errT
+	return e
+}
+
+// jsonAxioms: facts about JSON syntax shared by every use.
+func (vc *VC) jsonAxioms() {
+	if vc.jsonAx {
+		return
+	}
+	vc.jsonAx = true
+	u := vc.u
+	u.declareUninterp("isint", []string{"String"}, "Bool")
+	u.declareUninterp("litval", []string{"String"}, "Int")
+	u.declareUninterp("isJSONString", []string{"String"}, "Bool")
+	u.declareUninterp("isJSONTime", []string{"String"}, "Bool")
+	u.declareUninterp("isJSONBase64", []string{"String"}, "Bool")
+	// payload fragments handed to the decoders are whitespace-trimmed JSON values
+	// (json.RawMessage never includes surrounding whitespace): null is exactly "null"
+	vc.assume("(forall ((s String)) (! (= (jsonNull s) (= s \"null\")) :pattern ((jsonNull s))))")
+	vc.assume("(forall ((s String)) (! (=> (jsonNull s) (and (not (isint s)) (not (isJSONString s)) (not (isJSONTime s)) (not (isJSONBase64 s)) (not (= s \"true\")) (not (= s \"false\")))) :pattern ((jsonNull s))))")
+	// times and base64 byte strings are JSON strings
+	vc.assume("(forall ((s String)) (! (=> (isJSONTime s) (isJSONString s)) :pattern ((isJSONTime s))))")
+	vc.assume("(forall ((s String)) (! (=> (isJSONBase64 s) (isJSONString s)) :pattern ((isJSONBase64 s))))")
+	vc.assume("(forall ((s String)) (! (=> (isJSONString s) (not (isint s))) :pattern ((isJSONString s))))")
+	vc.assumed["json-syntax axioms: null is exactly the text \"null\" (fragments are whitespace-trimmed RawMessages); null, integer literals, strings, times and base64 strings are distinct JSON texts"] = true
+}
+
+// havocFresh: like havoc, but every heap/map keeps its content below `before`
+// (only new objects appear).
+func (vc *VC) havocFresh(fr *Frame, st *State, ms *ModSet, before string) {
+	na := vc.fresh("alloc", "Int")
+	vc.assume("(>= " + na + " " + st.alloc + ")")
+	st.alloc = na
+	for _, k := range sortedKeys(ms.heaps) {
+		t := vc.u.heapKeys[k]
+		_, h := vc.heap(st, t)
+		nh := vc.fresh("H_"+k, "(Array Int "+vc.u.sortOf(t)+")")
+		vc.assume(fmt.Sprintf("(forall ((a Int)) (! (=> (< a %s) (= (select %s a) (select %s a))) :pattern ((select %s a))))", before, nh, h, nh))
+		vc.assume(vc.refsBelowAxiom(nh, t, st.alloc))
+		vc.bytesFrame(k, h, nh, before)
+		st.heaps[k] = nh
+	}
+	for _, k := range sortedKeys(ms.maps) {
+		mt := vc.u.mapKeys[k]
+		_, dom, val, card := vc.mapArrays(st, mt)
+		ks, vs := vc.u.sortOf(mt.Key()), vc.u.sortOf(mt.Elem())
+		nd := vc.fresh("MD_"+k, "(Array Int (Array "+ks+" Bool))")
+		nv := vc.fresh("MV_"+k, "(Array Int (Array "+ks+" "+vs+"))")
+		nc := vc.fresh("MC_"+k, "(Array Int Int)")
+		for _, pr := range [][2]string{{nd, dom}, {nv, val}, {nc, card}} {
+			vc.assume(fmt.Sprintf("(forall ((m Int)) (! (=> (< m %s) (= (select %s m) (select %s m))) :pattern ((select %s m))))", before, pr[0], pr[1], pr[0]))
+		}
+		vc.assume(fmt.Sprintf("(forall ((m Int)) (! (>= (select %s m) 0) :pattern ((select %s m))))", nc, nc))
+		vc.assume(vc.mapRefsBelowAxiom(nv, mt, st.alloc))
+		st.mdom[k], st.mval[k], st.mcard[k] = nd, nv, nc
+	}
+}
+
+// jsonShapeFacts: what encoding/json guarantees about decoded skeletons
+// (filled in where the unmarshaling contracts need it).
+func (vc *VC) jsonShapeFacts(st *State, v *Val, t types.Type, okc, text string) {
 }
